@@ -1,6 +1,7 @@
 package vc
 
 import (
+	"sort"
 	"fmt"
 	"go/ast"
 	"go/constant"
@@ -798,6 +799,35 @@ func (se *specEnv) call(n *ast.CallExpr) specVal {
 				set = Store(set, t, True)
 			}
 			return specVal{V: set, T: &ghostArrayT{Type: untypedInt, elem: SBool}}
+		case "goarg":
+			// goarg(k, i): the i-th argument the k-th go statement (in execution order on this path) of
+			// the verified function was started with
+			k, ok1 := n.Args[0].(*ast.BasicLit)
+			i, ok2 := n.Args[1].(*ast.BasicLit)
+			if !ok1 || !ok2 {
+				se.fail("goarg(k, i) needs literal indexes")
+			}
+			ki, _ := strconv.Atoi(k.Value)
+			ii, _ := strconv.Atoi(i.Value)
+			if ki >= 1 && ki <= len(se.st.goArgs) && ii >= 1 && ii <= len(se.st.goArgs[ki-1]) {
+				return se.st.goArgs[ki-1][ii-1]
+			}
+			// this path did not execute that go statement: an arbitrary value of the parameter's type
+			// (the clause can only be proved here if it does not depend on it)
+			var gos []*ssa.Go
+			for _, b := range se.x.topFn.Blocks {
+				for _, in := range b.Instrs {
+					if g, ok := in.(*ssa.Go); ok {
+						gos = append(gos, g)
+					}
+				}
+			}
+			sort.Slice(gos, func(a, b int) bool { return gos[a].Pos() < gos[b].Pos() })
+			if ki < 1 || ki > len(gos) || ii < 1 || ii > gos[ki-1].Call.Signature().Params().Len() {
+				se.fail("goarg(%d, %d): the function has %d go statement(s)", ki, ii, len(gos))
+			}
+			pt := gos[ki-1].Call.Signature().Params().At(ii - 1).Type()
+			return specVal{V: se.x.freshVal(se.cur, "nogo", pt), T: pt}
 		case "allocated":
 			// the reference denotes an object that exists in the state the clause is evaluated in
 			var t Term
